@@ -95,7 +95,7 @@ func checkC08(p *Prog, r *Report) {
 	r.NotDec = []string{"equality of query answers before/after (runtime)", "JSON/amino/proto codec round trips", "module-manager ordering inside the SDK", "non-custom modules", "genesis Validate ⊇ reachable states beyond the field languages decided in C16"}
 	r.Trusted = []string{"cosmos-sdk module manager InitGenesis/ExportGenesis dispatch", "gogoproto JSON marshalling (sorted map keys)"}
 	kp := func(rule, rest string) string { return rule + ":C08:" + rest }
-	r.Floor("in-loop-decode-targets(x/*)", checkLoopFreshDecode(p, r, "C08", func(fn *ssa.Function) bool { return InPkgs(fn, "x") }), 6)
+	r.Floor("in-loop-decode-targets(x/*)", checkLoopFreshDecode(p, r, "C08", func(fn *ssa.Function) bool { return InPkgs(fn, "x") }), 3)
 
 	// ---------------- AOL ----------------
 	m := buildAolModel(p)
